@@ -17,10 +17,14 @@
   The theorems say: DagInv holds initially and after every edit of every finite history (for all sizes), what DagInv
   gives (sources/sinks, single path, indexes, register counts), that a two-qubit insertion on a pair the circuit reports
   compatible keeps it, which edits can change the register counts, and that every linear extension (what
-  `nx.topological_sort` returns) runs along every wire in wire order.
+  `nx.topological_sort` returns) runs along every wire in wire order; and (§7) every edit is the obvious list edit on the
+  wires — `group_one_qubit_gates` included: it replaces every maximal run of adjacent one-qubit gates of a wire by one
+  wrapper holding the run's classes in the order the code collects them, and changes nothing else
+  (`group_is_fuse_of_runs_on_wires`).
 -/
 import GraphiqModel.Proofs.PrepOrder
 import GraphiqModel.Proofs.Topo
+import GraphiqModel.Proofs.FuseLoop
 namespace Graphiq.C12
 open Graphiq Graphiq.Dag Graphiq.Metrics Relation
 
@@ -283,7 +287,8 @@ theorem sequence_is_topological_order {c : Dag} (h : DagInv c) :
 
   `Inv c P` relates the concrete state to the abstract wires `P` (unique: `wires_are_determined`).  The primitives act on
   the wires as list edits: append (`_add`), insert between two consecutive entries (`_insert_at`), erase (`remove_op`),
-  nothing (`replace_op`), splice-in a list (`unwrap_nodes`, per wrapper node). -/
+  nothing (`replace_op`), splice-in a list (`unwrap_nodes`, per wrapper node), fuse of the maximal runs of adjacent
+  one-qubit gates (`group_one_qubit_gates`). -/
 
 theorem wires_are_determined {c : Dag} {P P' : Reg → List NodeId} (h : Inv c P) (h' : Inv c P') (r : Reg) : P r = P' r :=
   h.paths_unique h' r
@@ -331,6 +336,62 @@ theorem remove_identity_is_filter_on_wires {c : Dag} {P : Reg → List NodeId} (
       ∀ r, wireOps c.removeIdentity.1 (P' r) = (wireOps c (P r)).filter (fun o => !decide (o.kind = .identity)) :=
   removeIdentity_wires g hpl
 
+/-! ### `group_one_qubit_gates` = fuse of runs
+
+  Definitions (Proofs/Fuse.lean, all pure list functions):
+    `gOp o`          the operation is groupable: it carries the label "one-qubit" and its class is a one-qubit gate class
+                     (`c.groupable n = gOp (operation of n)` on every circuit satisfying DagInv: `groupable_is_gOp`);
+    `kindsOf o`      `o.inner` for a wrapper (`gate_list += op.operations`), `[o.kind]` otherwise;
+    `runKinds run`   `run.reverse.flatMap kindsOf` — the loop walks the wire backwards, so the classes of the LAST
+                     operation of the run come first (the wrapper's convention: `unwrap()` reverses once more);
+    `fuseRun r run`  `[OneQubitGateWrapper(runKinds run, r)]`, or `[]` if that gate list is empty (`if … and gate_list`);
+    `fuseWire r l`   forward scan of `l` replacing every maximal run by `fuseRun`;
+    `flatOps l`      the primitive gate classes of groupable operations in application order, other operations as they are. -/
+
+/-- on a circuit satisfying DagInv the code's `groupable(node)` is the predicate `gOp` of the node's operation -/
+theorem groupable_is_gOp {c : Dag} {P : Reg → List NodeId} (g : Good c P) {i : Nat} {o : Op} (hm : (NodeId.op i, o) ∈ c.nodes) :
+    c.groupable (.op i) = gOp o ∧ (∀ r, c.groupable (.inp r) = false ∧ c.groupable (.out r) = false) :=
+  ⟨groupable_op g.inv hm, fun r => ⟨groupable_inp g.inv r, groupable_out g.inv r⟩⟩
+
+/-- **what `fuseWire` is** (these equations determine it): a non-groupable operation stays where it is; a maximal run of
+    adjacent groupable operations — followed by nothing or by a non-groupable operation — is replaced by `fuseRun` of it,
+    i.e. by ONE wrapper on the register whose gate list is `runKinds run` (the run's classes, last operation first;
+    nothing if that list is empty); the code's backward scan with a pending gate list (`fuseBack`) computes the same -/
+theorem fuse_wire_is_fuse_of_maximal_runs (r : Reg) :
+    fuseWire r [] = [] ∧
+    (∀ o t, gOp o = false → fuseWire r (o :: t) = o :: fuseWire r t) ∧
+    (∀ run t, (∀ o ∈ run, gOp o = true) → (t = [] ∨ ∃ o t', t = o :: t' ∧ gOp o = false) →
+      fuseWire r (run ++ t) = fuseRun r run ++ fuseWire r t) ∧
+    (∀ run, fuseRun r run =
+      if run.reverse.flatMap kindsOf = [] then []
+      else [⟨.wrapper, [r], [], ["one-qubit"], run.reverse.flatMap kindsOf⟩]) ∧
+    (∀ l, fuseBack r l.reverse [] = fuseWire r l) :=
+  ⟨rfl, fun _ t ho => fuseWire_cons_ng r ho t, fun run t hrun hmax => fuseWire_run r run hrun t hmax, fun _ => rfl,
+    fuseBack_eq_fuseWire r⟩
+
+/-- fusing does not change the flattened sequence of a wire (pure list fact; the wrapper convention and the backward
+    collection order cancel) -/
+theorem fuse_preserves_flat (r : Reg) (l : List Op) : flatOps (fuseWire r l) = flatOps l := flatOps_fuseWire r l
+
+/-- **`group_one_qubit_gates`, whole edit, on the wires.**  On a circuit satisfying DagInv whose operations are as
+    graphiq constructs them (`GroupHyp`: no user labels, wrappers wrap base classes, every groupable operation is a
+    one-qubit gate object — one quantum register, no classical register) the call does not raise, and with `P'` the wires
+    afterwards:
+      * on every wire the operation sequence is `fuseWire` of what it was: every maximal run of adjacent groupable
+        operations is replaced by one wrapper holding the run's classes in the order the code builds the list, every
+        other operation stays in place;
+      * the nodes that are not groupable stay on their wires, in their order (`Sublist`), and keep their operations
+        (only groupable nodes are removed; the wrappers are new nodes);
+      * hence the flattened sequence of every wire is unchanged. -/
+theorem group_is_fuse_of_runs_on_wires {c : Dag} {P : Reg → List NodeId} (g : Good c P) (hh : GroupHyp c) :
+    c.groupOneQubitGates.2 = none ∧ ∃ P', Good c.groupOneQubitGates.1 P' ∧
+      (∀ r, wireOps c.groupOneQubitGates.1 (P' r) = fuseWire r (wireOps c (P r))) ∧
+      (∀ r, ((P r).filter (fun x => !c.groupable x)).Sublist (P' r)) ∧
+      (∀ x, x ∈ c.nodeIds → c.groupable x = false → c.groupOneQubitGates.1.opOf? x = c.opOf? x) ∧
+      (∀ r, flatOps (wireOps c.groupOneQubitGates.1 (P' r)) = flatOps (wireOps c (P r))) := by
+  obtain ⟨e, P', g', _, hw, hsub, hkeep⟩ := groupOneQubitGates_wires g hh
+  exact ⟨e, P', g', hw, hsub, hkeep, fun r => by rw [hw r]; exact flatOps_fuseWire r _⟩
+
 /-! ## 8. non-vacuity: concrete operations, edges and a history satisfy the hypotheses -/
 
 def hE0 : Op := Op.oneQubit .hadamard ⟨.e, 0⟩
@@ -371,5 +432,59 @@ example : HistOK (Dag.init 1 1 0)
 /-- a well-formed single-edge insertion: the edge exists (kernel-evaluated on the model) and is keyed by the register -/
 example : InsertOK (Dag.init 1 1 0) hE0 [⟨.inp ⟨.e, 0⟩, .out ⟨.e, 0⟩, ⟨.e, 0⟩⟩] :=
   ⟨by decide, rfl, by intro e1 h1 e2 h2 hne; simp at h1 h2; subst h1 h2; exact absurd rfl hne⟩
+
+/-- a two-qubit insertion on a pair the model reports compatible: on `CircuitDAG(1, 1, 0)` the hypotheses of
+    `model_compatible_insert_keeps_dagInv` hold for `CNOT e0→p0` on the two (only) edges -/
+example :
+    (Dag.init 1 1 0).findIncompatibleEdges ⟨.inp ⟨.e, 0⟩, .out ⟨.e, 0⟩, ⟨.e, 0⟩⟩ =
+      .ok [⟨.inp ⟨.e, 0⟩, .out ⟨.e, 0⟩, ⟨.e, 0⟩⟩] ∧
+    (⟨.inp ⟨.e, 0⟩, .out ⟨.e, 0⟩, ⟨.e, 0⟩⟩ : Edge) ∈ (Dag.init 1 1 0).edges ∧
+    (⟨.inp ⟨.p, 0⟩, .out ⟨.p, 0⟩, ⟨.p, 0⟩⟩ : Edge) ∈ (Dag.init 1 1 0).edges ∧
+    (⟨.inp ⟨.p, 0⟩, .out ⟨.p, 0⟩, ⟨.p, 0⟩⟩ : Edge) ∉ [(⟨.inp ⟨.e, 0⟩, .out ⟨.e, 0⟩, ⟨.e, 0⟩⟩ : Edge)] ∧
+    cnotE0P0.qregs = [⟨.e, 0⟩, ⟨.p, 0⟩] ∧ ∀ r ∈ cnotE0P0.cregs, r < (Dag.init 1 1 0).regs .c :=
+  ⟨by rfl, by decide, by decide, by decide, rfl, by decide⟩
+
+/-! ### `group_is_fuse_of_runs_on_wires` -/
+
+def pE0 : Op := Op.oneQubit .phase ⟨.e, 0⟩
+def zE0 : Op := Op.oneQubit .sigmaZ ⟨.e, 0⟩
+def xP0 : Op := Op.oneQubit .sigmaX ⟨.p, 0⟩
+
+/-- `H e0; P e0; CNOT e0→p0; W[H,P] p0; X p0; MCR e0→p1 (c0); Z e0` -/
+def gseq : List Op := [hE0, pE0, cnotE0P0, wrapP0, xP0, mcrE0P1, zE0]
+
+/-- the circuit built from it satisfies the hypotheses of `group_is_fuse_of_runs_on_wires` -/
+example : DagInv (build 1 2 1 gseq).1 ∧ GroupHyp (build 1 2 1 gseq).1 := by
+  apply groupHyp_of_built 1 2 1 gseq _ (by decide)
+  intro op hop
+  simp [gseq] at hop
+  rcases hop with rfl | rfl | rfl | rfl | rfl | rfl | rfl
+  · exact ⟨oneQubit_wf rfl (by decide), plain_oneQubit _ _, fun _ => ⟨⟨_, rfl⟩, rfl⟩⟩
+  · exact ⟨oneQubit_wf rfl (by decide), plain_oneQubit _ _, fun _ => ⟨⟨_, rfl⟩, rfl⟩⟩
+  · exact ⟨cnot_wf, ⟨⟨by decide, by decide⟩, by decide⟩, fun h => absurd h (by decide)⟩
+  · exact ⟨wrap_wf, ⟨⟨by decide, by decide⟩, by decide⟩, fun _ => ⟨⟨_, rfl⟩, rfl⟩⟩
+  · exact ⟨oneQubit_wf rfl (by decide), plain_oneQubit _ _, fun _ => ⟨⟨_, rfl⟩, rfl⟩⟩
+  · exact ⟨mcr_wf, ⟨⟨by decide, by decide⟩, by decide⟩, fun h => absurd h (by decide)⟩
+  · exact ⟨oneQubit_wf rfl (by decide), plain_oneQubit _ _, fun _ => ⟨⟨_, rfl⟩, rfl⟩⟩
+
+/-- the operations on the wire that `reg_gate_history` returns -/
+def opsOnWire (c : Dag) (r : Reg) : List Op :=
+  match c.regGateHistory r with
+  | .ok h => wireOps c h
+  | .error _ => []
+
+/-- on it the edit acts non-trivially (kernel-evaluated on the model; the real `group_one_qubit_gates` returns the same
+    wires): `H; P` on `e0` become one wrapper with gate list `[Phase, Hadamard]`, the trailing `Z` one with `[SigmaZ]`,
+    `W[H,P]; X` on `p0` one with `[SigmaX, Hadamard, Phase]`; CNOT and the measurement stay -/
+example : (build 1 2 1 gseq).1.groupOneQubitGates.2 = none ∧
+    opsOnWire (build 1 2 1 gseq).1.groupOneQubitGates.1 ⟨.e, 0⟩ =
+      [wrapperOn ⟨.e, 0⟩ [.phase, .hadamard], cnotE0P0, mcrE0P1, wrapperOn ⟨.e, 0⟩ [.sigmaZ]] ∧
+    opsOnWire (build 1 2 1 gseq).1.groupOneQubitGates.1 ⟨.p, 0⟩ =
+      [cnotE0P0, wrapperOn ⟨.p, 0⟩ [.sigmaX, .hadamard, .phase]] := by decide
+
+example : fuseWire ⟨.e, 0⟩ [hE0, pE0, cnotE0P0, mcrE0P1, zE0] =
+      [wrapperOn ⟨.e, 0⟩ [.phase, .hadamard], cnotE0P0, mcrE0P1, wrapperOn ⟨.e, 0⟩ [.sigmaZ]] ∧
+    fuseWire ⟨.p, 0⟩ [cnotE0P0, wrapP0, xP0] = [cnotE0P0, wrapperOn ⟨.p, 0⟩ [.sigmaX, .hadamard, .phase]] ∧
+    flatOps [cnotE0P0, wrapP0, xP0] = [.inr cnotE0P0, .inl .phase, .inl .hadamard, .inl .sigmaX] := by decide
 
 end Graphiq.C12
